@@ -1,6 +1,9 @@
 """Per-property configuration of bin/check."""
 
 PROPS = {
+    "C06": {"quick": 3000, "thorough": 120000, "model": ["SpecKeys"], "pending": "in progress"},
+    "C07": {"quick": 2400, "thorough": 80000, "model": ["SpecKeys"], "pending": "in progress"},
+    "C08": {"quick": 2400, "thorough": 80000, "model": ["SpecKeys"], "pending": "in progress"},
     "C09": {
         "quick": 1200, "thorough": 40000,
         "model": ["SpecC09"],
